@@ -202,9 +202,32 @@ func (s *Solver) Assert(t string) {
 }
 
 // Check returns "sat", "unsat" or "unknown" (timeouts and errors are unknown).
-func (s *Solver) Check() string {
+func (s *Solver) Check() (verdict string) {
 	s.Calls++
 	t0 := time.Now()
+	// watchdog: z3's string solver does not always honour :timeout
+	proc := s.cmd.Process
+	killed := false
+	wd := time.AfterFunc(time.Duration(2*s.timeout+5000)*time.Millisecond, func() {
+		killed = true
+		proc.Kill()
+	})
+	defer func() {
+		wd.Stop()
+		if r := recover(); r != nil {
+			if !killed {
+				panic(r)
+			}
+			if len(s.Errors) < 20 {
+				s.Errors = append(s.Errors, "solver killed by watchdog (no answer within twice the timeout)")
+			}
+			script, marks := s.script, s.marks
+			s.Restart()
+			s.script, s.marks = script, marks
+			s.live = false
+			verdict = "unknown"
+		}
+	}()
 	if s.live {
 		s.send("(check-sat)\n(echo \"<<done>>\")")
 	} else {
@@ -220,7 +243,7 @@ func (s *Solver) Check() string {
 		b.WriteString("(check-sat)\n(echo \"<<done>>\")")
 		s.send(b.String())
 	}
-	verdict := "unknown"
+	verdict = "unknown"
 	sawErr := false
 	for {
 		r := s.readSexp()
